@@ -2,6 +2,7 @@ package main
 
 import (
 	"fmt"
+	"go/types"
 	"sort"
 	"strings"
 
@@ -195,6 +196,7 @@ func checkC11(c *Ctx, r *Report) {
 		fmt.Sprintf("%d write effects summarised over %d functions (fixpoint after %d rounds); %d constructs write into the request", nWrites, len(eng.sums), eng.iter, len(found)))
 	r.floor("C11.PURE", "write effects summarised for the entry points", nWrites, 40)
 	r.floor("C11.PURE", "functions summarised", len(eng.sums), 60)
+	c11NoAlias(c, r)
 }
 
 func calleeDesc2(call ssa.CallInstruction) string {
@@ -202,4 +204,88 @@ func calleeDesc2(call ssa.CallInstruction) string {
 		return f.Name() + "()"
 	}
 	return "a function value"
+}
+
+// c11NoAlias: the literals of a parsed request (list and object literals of arguments and variable defaults)
+// reach resolvers only as copies: the container coercers (*List).CoerceIn and (*Input).CoerceIn never return
+// the value they were given. A list handed on as it is belongs to the parsed request; a resolver that keeps
+// it and later changes it changes the request's default for every later call and its printed form.
+func c11NoAlias(c *Ctx, r *Report) {
+	r.rule("C11.NOALIAS", "(*List).CoerceIn and (*Input).CoerceIn return freshly built containers (or nil): no returned value is derived from the argument by assertion alone")
+	n := 0
+	for _, name := range []string{"(*List).CoerceIn", "(*Input).CoerceIn"} {
+		fn := c.fn(name)
+		if fn == nil || len(fn.Params) < 2 {
+			r.undecided("C11.NOALIAS", "anchor "+name, 0, "not found")
+			continue
+		}
+		r.fnSeen(fnName(fn))
+		arg := fn.Params[1]
+		k := 0
+		for _, rt := range returnsOf(fn) {
+			if len(rt.Results) == 0 {
+				continue
+			}
+			n++
+			k++
+			bad := false
+			leaves, _ := phiLeaves(resolveCell(rt.Results[0]))
+			isContainer := func(t types.Type) bool {
+				switch t.Underlying().(type) {
+				case *types.Slice, *types.Map:
+					return true
+				}
+				return false
+			}
+			for _, lf := range leaves {
+				v := lf.val
+				asContainer := false
+				for i := 0; i < 6; i++ {
+					switch t := v.(type) {
+					case *ssa.MakeInterface:
+						v = t.X
+						continue
+					case *ssa.ChangeType:
+						v = t.X
+						continue
+					case *ssa.Extract:
+						v = t.Tuple
+						continue
+					case *ssa.TypeAssert:
+						if isContainer(t.AssertedType) {
+							asContainer = true
+						}
+						v = t.X
+						continue
+					case *ssa.Slice:
+						v = t.X
+						continue
+					}
+					break
+				}
+				if v != ssa.Value(arg) {
+					continue
+				}
+				// the argument as it is: a literal container only under a case that says so (nil and values of a
+				// registered Go type belong to nobody's request)
+				if !asContainer {
+					b := rt.Block()
+					if lf.pred != nil {
+						b = lf.pred
+					}
+					for _, ct := range caseTypes(b, arg) {
+						if isContainer(ct) {
+							asContainer = true
+						}
+					}
+				}
+				if asContainer {
+					bad = true
+				}
+			}
+			r.check("C11.NOALIAS", fmt.Sprintf("%s: return #%d hands on a container built by the coercer", fnName(fn), k), rt.Pos(), !bad,
+				"the argument itself is returned: for a variable that is not given it is the default literal of the parsed request, which then sits in the variable table and in the arguments handed to resolvers - application code that keeps and edits it edits the request")
+		}
+	}
+	r.floor("C11.NOALIAS", "returns of the container coercers", n, 4)
 }
